@@ -36,7 +36,7 @@ def run(tier):
                    dict(op='get', t=0, s='', k=''.join(b['k']), v='', b=False)]
             f.write(json.dumps(seq) + '\n')
     with open(sp, 'a') as f:
-        for q in kv.session_switch_sequences():
+        for q in kv.session_switch_sequences() + kv.punctuation_sequences():
             f.write(json.dumps(q) + '\n')
     # canonical cases of the known findings
     for k in core.known_for(PID):
